@@ -9,7 +9,7 @@ use serde_json::json;
 use crate::check::{Check, Finding, Tier};
 use crate::genpkt;
 use crate::libconv::*;
-use crate::refmqtt::{self as rf, DecErr, Mal, Ver};
+use crate::refmqtt::{self as rf, DecErr, Mal, Pkt, Ver};
 
 fn fnd(clause: &str, witness: String, detail: String, input: serde_json::Value) -> Finding {
     Finding { clause: clause.into(), witness, detail, replay: json!({"engine": "enum", "check": "c02", "input": input}) }
@@ -301,6 +301,91 @@ pub fn drive_sniff(input: &[u8], cuts: &[usize], out: &mut Vec<Finding>) {
     }
 }
 
+/// Variants of a v5 packet with one property repeated or one further property (any id of the
+/// specification, minimal value) appended, in the packet's own and in the will's property list.
+pub fn prop_mutants(p: &Pkt) -> Vec<Pkt> {
+    use rf::{PTy, PVal};
+    let minimal = |id: u8| -> Option<(u8, PVal)> {
+        let (ty, _, _) = rf::prop_info(id)?;
+        Some((
+            id,
+            match ty {
+                PTy::Byte => PVal::Byte(1),
+                PTy::U16 => PVal::U16(1),
+                PTy::U32 => PVal::U32(1),
+                PTy::VarInt => PVal::VarInt(1),
+                PTy::Str => PVal::Str("s".into()),
+                PTy::Bin => PVal::Bin(vec![1]),
+                PTy::Pair => PVal::Pair("k".into(), "v".into()),
+            },
+        ))
+    };
+    let variants = |props: &rf::Props| -> Vec<rf::Props> {
+        let mut v = Vec::new();
+        for i in 0..props.len() {
+            let mut q = props.clone();
+            q.push(props[i].clone());
+            v.push(q);
+        }
+        for id in rf::ALL_PROP_IDS {
+            if let Some(x) = minimal(id) {
+                let mut q = props.clone();
+                q.push(x);
+                v.push(q);
+            }
+        }
+        v
+    };
+    let mut out = Vec::new();
+    match p {
+        Pkt::Connect { props, will, .. } => {
+            for q in variants(props) {
+                let mut m = p.clone();
+                if let Pkt::Connect { props, .. } = &mut m {
+                    *props = q;
+                }
+                out.push(m);
+            }
+            if let Some(w) = will {
+                for q in variants(&w.props) {
+                    let mut m = p.clone();
+                    if let Pkt::Connect { will: Some(w), .. } = &mut m {
+                        w.props = q;
+                    }
+                    out.push(m);
+                }
+            }
+        }
+        Pkt::ConnAck { props, .. } | Pkt::Publish { props, .. } | Pkt::Subscribe { props, .. } | Pkt::SubAck { props, .. } | Pkt::Unsubscribe { props, .. } | Pkt::UnsubAck { props, .. } => {
+            for q in variants(props) {
+                let mut m = p.clone();
+                match &mut m {
+                    Pkt::ConnAck { props, .. } | Pkt::Publish { props, .. } | Pkt::Subscribe { props, .. } | Pkt::SubAck { props, .. } | Pkt::Unsubscribe { props, .. } | Pkt::UnsubAck { props, .. } => *props = q,
+                    _ => {}
+                }
+                out.push(m);
+            }
+        }
+        Pkt::Ack { props, code, .. } | Pkt::Disconnect { code, props } | Pkt::Auth { code, props } => {
+            for q in variants(&props.clone().unwrap_or_default()) {
+                let mut m = p.clone();
+                match &mut m {
+                    Pkt::Ack { props, code: c, .. } | Pkt::Disconnect { code: c, props } | Pkt::Auth { code: c, props } => {
+                        *props = Some(q);
+                        if c.is_none() {
+                            *c = Some(code.unwrap_or(0));
+                        }
+                    }
+                    _ => {}
+                }
+                out.push(m);
+            }
+        }
+        _ => {}
+    }
+    out
+}
+
 pub fn all_cuts(n: usize) -> Vec<Vec<usize>> {
     if n <= 1 {
         return vec![vec![]];
@@ -569,6 +654,19 @@ pub fn run(tier: Tier) -> i32 {
                     drive(ver, &e, &[], 4096, 0, out, st);
                     evals.fetch_add(2, Ordering::Relaxed);
                 }
+                // structure-aware property mutations (v5): every property of the frame repeated, and every
+                // property id of the specification added once, with all enclosing lengths kept consistent
+                if ver == Ver::V5 {
+                    if let Ok((pkt, _)) = rf::decode(Ver::V5, f) {
+                        for m in prop_mutants(&pkt) {
+                            let Ok(mut e) = std::panic::catch_unwind(|| rf::encode(Ver::V5, &m)) else { continue };
+                            e.extend_from_slice(&[0xc0, 0x00]);
+                            inputs.fetch_add(1, Ordering::Relaxed);
+                            drive(ver, &e, &[], 0, 0, out, st);
+                            evals.fetch_add(1, Ordering::Relaxed);
+                        }
+                    }
+                }
             },
             &findings,
             &stats,
@@ -602,7 +700,7 @@ pub fn run(tier: Tier) -> i32 {
     ck.transitions = ck.evaluations;
     ck.distinct_nontrivial = inputs.load(Ordering::Relaxed);
     ck.rule = format!(
-        "(a) every byte string of length <= 3 in every fragmentation, max_size 0 and 2, for the v3, v5 and version-sniffing decoders; (a') first byte x Remaining Length 0..={maxrl} x all bodies over {{00,01,02,7f,80,ff,'a',23}} followed by a PINGREQ; (b) corpus of valid frames <= 64 bytes (v3 {} / v5 {} frames, every {}-th used): every truncation in every fragmentation (all 2^(n-1) up to 12 bytes, else whole/bytewise/single cuts) x min_chunk {{0,1,4}}, every single-byte substitution at every offset, Remaining-Length edits, prefix splices. distinct_nontrivial = distinct inputs (each is a different byte string); states = inputs, transitions = decode runs",
+        "(a) every byte string of length <= 3 in every fragmentation, max_size 0 and 2, for the v3, v5 and version-sniffing decoders; (a') first byte x Remaining Length 0..={maxrl} x all bodies over {{00,01,02,7f,80,ff,'a',23}} followed by a PINGREQ; (b) corpus of valid frames <= 64 bytes (v3 {} / v5 {} frames, every {}-th used): every truncation in every fragmentation (all 2^(n-1) up to 12 bytes, else whole/bytewise/single cuts) x min_chunk {{0,1,4}}, every single-byte substitution at every offset, Remaining-Length edits, prefix splices, and (v5) every property repeated / every property id of the specification added with consistent lengths. distinct_nontrivial = distinct inputs (each is a different byte string); states = inputs, transitions = decode runs",
         corpus_sizes[0], corpus_sizes[1], if full { 1 } else { 6 }
     );
     ck.samples = vec![
